@@ -27,10 +27,37 @@ def setter_min(code, curt):
     return (3 * z // 4 if curt else z) + 1
 
 
+def unpack(case):
+    """(code0, curt0, size0, authic, ki, memos, sched, hist)"""
+    c = tuple(case[1:])
+    return c if len(c) > 7 else c + ([],)
+
+
+def final_cfg(case):
+    """the oracle's own account of the configuration history: (code, curt, stored size) after the constructor and every assignment;
+    every assignment clamps the stored size to the minimum of the code / encoding then in force; None when an assignment is refused"""
+    code, curt, size, _a, _k, _m, _s, hist = unpack(case)
+    if code not in A.ZCODES:
+        return None
+    size = max(size, setter_min(code, curt))
+    for what, val in hist:
+        if what == "code":
+            if val not in A.ZCODES:
+                return None
+            code = val
+        elif what == "curt":
+            curt = bool(val)
+        else:
+            size = val
+        size = max(size, setter_min(code, curt))
+    return code, curt, size
+
+
 def simulate(case, counts, f32, f33):
     """spec-level receiver: which memo indices are delivered after each batch.
     f32: a signed non-zeroth gram is dropped unless the zeroth gram of its memo is held;  f33: a memo that completes again is delivered again"""
-    _, code, curt, size, authic, ki, memos, sched = case
+    _c0, _u0, _s0, authic, ki, memos, sched, _h = unpack(case)
+    code, curt, size = final_cfg(case)
     signed = code in A.SIGNED
     held = {}
     first_src = {}
@@ -72,23 +99,27 @@ class C20(core.Check):
                  "(permutations, duplicates, interleavings, batches) -> real receive servicing, against the compiled model")
     quick_n = 500
     thorough_n = 7000
-    level_text = ("Proved for ALL inputs (unbounded). Sender: rend_fuse — whenever rend succeeds on a non-empty memo (any code, either encoding, any size, "
-                  "any sign function) the gram bodies concatenate to the memo in gram-number order, none is empty, their number is the number of grams "
-                  "and is what the count field encodes, each gram is header ++ body (++ signature). Header codec: header_roundtrip_b64 (+ _zeroth/_later "
-                  "_unsigned/_signed) — for EVERY code of the regenerated table a datagram laid out code|intToB64b(n)|mid|vid|body|sig is parsed by pick "
-                  "into exactly those fields (uses the Base64 integer round trip re-proved in the package). Receiver, over sequences of grams pick accepted, "
-                  "for one memo among ARBITRARY other traffic with other ids: reassembly_one_batch (any order / duplicates / interleaving: delivered iff "
-                  "every gram number occurs, by its single entry, with text = bodies concatenated, source, vid), never_incomplete and delivered_content "
-                  "(any history of batches), delivered_when_complete + keys_accumulate, exactly_once_unless_replayed (_partial: exactly once under the guard "
-                  "of K3/F33 that no complete set arrives again; redelivered_on_full_replay is the witness), fuse_pass_per_entry, service_is_store_then_fuse "
-                  "(serviceAllRx = store accepted grams then fuse). NOT proved, carried by the correspondence only: the Base2 (curt) header parse of a "
-                  "genuine gram, and the composition rend -> pick for signed grams beyond header_roundtrip_*_signed (K2/F32 is visible there as the "
-                  "rejection clause). Known findings K1 (curt sizes < 33), K2 (F32), K3 (F33) are reproduced on the real code and matched narrowly.")
+    level_text = ("Proved for ALL inputs (unbounded; 31 theorems). Configuration histories: setters_legal / size_setter_spec — after the constructor and ANY "
+                  "sequence of .code/.curt/.size assignments the stored gram size is >= the minimum of the code and encoding then in force (every setter "
+                  "re-clamps), so rend_fuse_after_history applies. Sender: rend_fuse (bodies concatenate to the memo in gram-number order, none empty, count "
+                  "field = number of grams, each gram = header ++ body (++ signature)). Header codec, every code of the regenerated table, signed or not: "
+                  "header_roundtrip_b64 (+4 corollaries; uses the Base64 integer round trip) and header_roundtrip_b2 (+2; Base2 headers: codeB2ToB64, "
+                  "int.from_bytes, re-encoded mid/vid/signature). rend -> pick: grams_parse_b64, grams_parse_b2, grams_parse_b64_signed (every gram rend "
+                  "produces is parsed back into its fields). Receiver over accepted grams, one memo among ARBITRARY other traffic: reassembly_one_batch, "
+                  "delivered_content, never_incomplete, delivered_when_complete, keys_accumulate, exactly_once_history (one packaged statement over a whole "
+                  "history of batches: nothing before the completing batch, the memo at it, nothing after), exactly_once_unless_replayed; both under the "
+                  "guard of K3/F33 that no complete set arrives again (redelivered_on_full_replay = witness). COMPOSED end to end (real model functions "
+                  "rend -> any delivery order with duplicates -> serviceAllRx on an empty receiver -> delivered = [(memo, source, vid)] iff every gram is "
+                  "in the sequence, else []): end_to_end_unsigned_b64, end_to_end_unsigned_b2, end_to_end_signed_b64 (guard K2/F32: zeroth gram first; "
+                  "hypothesis: what sign returns has the table's size and verifies), over end_to_end_generic / _zeroth_first / end_to_end_of_picks. "
+                  "Still correspondence only: signed grams with Base2 headers end to end, and interleaving of several rendered memos in the composed "
+                  "statements (interleaving is proved at the accepted-gram level). Known findings K1, K2 (F32), K3 (F33) reproduced and matched narrowly.")
     level_note = ("Trusted: Lean kernel + propext/Classical.choice/Quot.sound; translator harness/extract/memo.py; the sampled end-to-end correspondence "
                   "(real rend with real pysodium -> scheduled delivery -> real serviceAllRx vs the compiled model); the four receive dicts modelled as one "
                   "list of entries (their key sets coincide from the empty state); CPython utf-8 and float ceil as stated in assumptions. "
                   "Pre-finding F31 reproduced and repaired for the count formula (fix/memo eb96733); its small-size half is K1 (pinned by the tree's test).")
-    rule = ("cases: zeroth code in {plain, auth, sure, sure+auth} x {Base64, Base2 headers}; gram size from the setter minimum up (mostly minimum+0..40 so "
+    rule = ("cases: half of them reach their configuration by a HISTORY of property assignments on a live Memoer (constructor with other values, then "
+            ".size/.code/.curt in any order, repeated, rarely a refused code) before rend; zeroth code in {plain, auth, sure, sure+auth} x {Base64, Base2 headers}; gram size from the setter minimum up (mostly minimum+0..40 so "
             "that memos need 2..40 grams, sometimes 1200/65535); 1..4 memos of 1..2048 utf-8 bytes of mixed-width unicode, distinct mids, own sources; "
             "schedule = all grams permuted (in order / reversed / shuffled / zeroth-first shuffled / interleaved), with duplicates inserted, sometimes a "
             "gram withheld, cut into 1..5 service batches (or one batch per gram), sometimes a full replay after completion. "
@@ -128,6 +159,12 @@ class C20(core.Check):
             ("e2e", "bAAA", False, 38, False, None, two, [[(0, 0), (0, 1), (1, 0), (1, 1), (1, 2), (1, 3)]]),         # memo 0 misses gram 2
             ("e2e", "bAAE", False, 33, False, None, one, [[(0, 5), (0, 4), (0, 3), (0, 2), (0, 1), (0, 0)]]),
             ("e2e", "bAAA", False, 38, False, None, two[:1], [[(0, 1), (0, 0, 5), (0, 1, 6), (0, 2, 4)]]),          # the source is that of the first gram
+            # configuration histories (seeded change C20-m3): size chosen first, then the code / encoding switched; the setter must re-clamp
+            ("e2e", "bAAA", False, 150, True, 0, [(b"m" * 190, 1, 1)], [[(0, 0), (0, 1), (0, 2), (0, 3), (0, 4), (0, 5), (0, 6), (0, 7)]], [("code", "bAAC")]),
+            ("e2e", "bAAC", True, 140, True, 0, [(b"m" * 190, 1, 1)], [[(0, 0), (0, 3), (0, 2), (0, 1), (0, 4), (0, 5), (0, 6), (0, 7)]], [("curt", False)]),
+            ("e2e", "bAAE", True, 30, False, 1, [(b"m" * 50, 1, 1)], [[(0, 0), (0, 1), (0, 2)]], [("size", 130), ("size", 130), ("code", "bAAG"), ("curt", False), ("curt", False)]),
+            ("e2e", "bAAA", False, 50, False, None, [(b"m", 1, 1)], [[(0, 0)]], [("code", "bAAB")]),                  # refused: not a zeroth code
+            ("e2e", "bAAG", False, 400, False, 2, [(b"m" * 300, 1, 1)], [[(0, 1), (0, 0)]], [("code", "bAAE"), ("size", 40), ("curt", True), ("size", 60)]),
         ]
 
     def exhaustive(self, tier):
@@ -162,8 +199,24 @@ class C20(core.Check):
                 size = rng.choice([600, 1200, 65535])
             authic = signed and rng.random() < 0.7
             ki = rng.randrange(0, 4) if signed else (None if rng.random() < 0.8 else rng.randrange(0, 4))
+            # configuration history: (code, curt, size) above is the TARGET; half of the cases reach it by property assignments on a live
+            # Memoer, in any order (size first, then code / curt is the order in which only the re-clamp of those setters protects rend)
+            hist, c0 = [], (code, curt, size)
+            if rng.random() < 0.5:
+                c0 = (rng.choice(A.ZCODES), rng.random() < 0.5, rng.choice([0, 33, 100, 124, 140, 150, 165, 200, size]))
+                for _ in range(rng.choice([0, 0, 1, 2])):
+                    w = rng.choice(["code", "curt", "size"])
+                    hist.append((w, rng.choice(A.ZCODES) if w == "code" else (rng.random() < 0.5 if w == "curt" else rng.choice([0, 60, 130, 150, 170, size]))))
+                tail = [("size", size), ("code", code), ("curt", curt)]
+                rng.shuffle(tail)
+                if rng.random() < 0.3:
+                    tail.append((tail[0][0], tail[0][1]))          # assigned again, unchanged
+                hist += tail
+                if rng.random() < 0.03:
+                    hist.insert(rng.randrange(len(hist) + 1), ("code", rng.choice(["bAAB", "bAAD", "bAAI", "zzzz"])))   # refused
             zo, no = A.ref_overheads(code, False)
-            esz = max(size, lo)
+            fc = final_cfg(("e2e",) + c0 + (authic, ki, [], [], hist))
+            esz = fc[2] if fc else max(size, lo)
             zbz = esz - (3 * zo // 4 if curt else zo)
             nbz = esz - no
             memos = []
@@ -223,7 +276,7 @@ class C20(core.Check):
                 for c in cuts + [len(seq)]:
                     sched.append(seq[prev:c])
                     prev = c
-            yield ("e2e", code, curt, size, authic, ki, memos, sched)
+            yield ("e2e",) + c0 + (authic, ki, memos, sched, hist)
 
     # ---- running
     def _run(self, case):
@@ -238,24 +291,32 @@ class C20(core.Check):
         return self._run(case)[0]
 
     def request(self, case):
-        _, code, curt, size, authic, ki, memos, sched = case
+        code, curt, size, authic, ki, memos, sched, hist = unpack(case)
         _obs, stab, vtab, _esz = self._run(case)
-        return ("e2e", ("code", code.encode()), ("curt", bool(curt)), ("size", size), ("authic", bool(authic)),
+        return ("e2e", ("code", code.encode()), ("curt", bool(curt)), ("size", size),
+                ("hist",) + tuple((w, v.encode() if w == "code" else (bool(v) if w == "curt" else v)) for w, v in hist), ("authic", bool(authic)),
                 ("vid", A.key(ki)["vid"].encode() if ki is not None else None), ("stab",) + tuple(stab), ("vtab",) + tuple(vtab),
                 ("memos",) + tuple((bytes(t), A.mid_of(ms).encode(), s) for t, ms, s in memos),
                 ("sched",) + tuple(tuple(tuple(x) for x in b) for b in sched))
 
     # ---- the property
     def _counts(self, obs):
-        return [len(r) - 1 if r[0] == "grams" else 0 for r in obs[0][1:]]
+        return [len(r) - 1 if r[0] == "grams" else 0 for r in obs[1][1:]]
 
     def oracle(self, case, obs):
-        _, code, curt, size, authic, ki, memos, sched = case
+        _c0, _u0, _s0, authic, ki, memos, sched, hist = unpack(case)
         bad = []
+        fc = final_cfg(case)
+        if obs[0][0] == "cfg-raise":
+            return [] if fc is None and obs[0][1] == "MemoerError" else ["configuration-refused:" + obs[0][1]]
+        if fc is None:
+            return ["illegal-code-accepted"]
+        code, curt, esz = fc
+        if tuple(obs[0][1:]) != (code.encode(), curt, esz):
+            bad.append("gram-size-not-clamped-to-code-and-encoding")
         signed = code in A.SIGNED
-        esz = max(size, setter_min(code, curt))
         vid = A.key(ki)["vid"].encode() if (ki is not None and signed) else None
-        for (t, _ms, _s), r in zip(memos, obs[0][1:]):
+        for (t, _ms, _s), r in zip(memos, obs[1][1:]):
             if r[0] == "raise":
                 bad.append("rend-refused-legal-memo:" + r[1])
             elif len(r) == 1:
@@ -266,7 +327,7 @@ class C20(core.Check):
             return bad
         counts = self._counts(obs)
         want = simulate(case, counts, False, False)
-        rx = obs[1][1:]
+        rx = obs[2][1:]
         for i, o in enumerate(rx):
             if o[0] == "escape":
                 bad.append("receive-servicing-raised:" + o[1])
@@ -296,12 +357,16 @@ class C20(core.Check):
         return sorted(set(bad))
 
     def known(self, case, obs, clauses):
-        _, code, curt, size, authic, ki, memos, sched = case
+        _c0, _u0, _s0, authic, ki, memos, sched, hist = unpack(case)
+        fc = final_cfg(case)
+        if fc is None or obs[0][0] != "cfg" or any(c.startswith(("gram-size-not", "configuration", "illegal")) for c in clauses):
+            return None
+        code, curt, size = fc
         signed = code in A.SIGNED
-        rends = obs[0][1:]
+        rends = obs[1][1:]
         if any(c.startswith("rend-refused") for c in clauses):
             # K1: Base2 headers, unsigned code, gram size below the (unscaled) later-gram overhead + 1
-            if curt and not signed and max(size, setter_min(code, curt)) < legal_min(code, curt) and all(
+            if curt and not signed and size < legal_min(code, curt) and all(
                     r[0] == "grams" or r[1] in ("MemoerError", "ZeroDivisionError") for r in rends):
                 return "C20-K1"
             return None
@@ -309,7 +374,7 @@ class C20(core.Check):
             return None
         counts = self._counts(obs)
         got = []
-        for o in obs[1][1:]:
+        for o in obs[2][1:]:
             got.append(sorted(repr(x) for x in o[0][1:]))
         vid = A.key(ki)["vid"].encode() if (ki is not None and signed) else None
 
@@ -325,28 +390,42 @@ class C20(core.Check):
         return None
 
     def nontrivial(self, case, obs):
+        if obs[0][0] != "cfg":
+            return False
         counts = self._counts(obs)
         flat = [x for b in case[7] for x in b]
         plain = [(mi, g) for mi, c in enumerate(counts) for g in range(c)]
         return any(c >= 2 for c in counts) and [tuple(x) for x in flat] != plain
 
     def features(self, case, obs):
-        _, code, curt, size, authic, ki, memos, sched = case
+        _c0, _u0, _s0, authic, ki, memos, sched, hist = unpack(case)
+        if obs[0][0] != "cfg":
+            return ["cfg-raise:" + obs[0][1]]
+        code, curt = obs[0][1].decode(), obs[0][2]
         counts = self._counts(obs)
-        f = [code, "b2" if curt else "b64", "authic" if authic else "open", f"memos={len(memos)}", f"batches~{min(len(sched), 6)}"]
+        f = ["setters=" + str(min(len(hist), 4))] + (["reclamped-by-code-or-curt"] if hist and hist[-1][0] != "size" and obs[0][3] > max(
+            [_s0] + [v for w, v in hist if w == "size"]) else []) + [code, "b2" if curt else "b64", "authic" if authic else "open", f"memos={len(memos)}", f"batches~{min(len(sched), 6)}"]
         f.append("grams/memo~" + str(min(max(counts + [0]), 40) // 5 * 5))
         f.append("memo-bytes~" + str(min(max(len(t) for t, _, _ in memos), 2048) // 256 * 256))
         flat = [tuple(x) for b in sched for x in b]
         f.append("dups" if len(flat) != len(set((x[0], x[1] % counts[x[0]]) for x in flat if counts[x[0]])) else "no-dups")
         if any(len(x) > 2 for x in flat):
             f.append("foreign-source-duplicate")
-        if any(r[0] == "raise" for r in obs[0][1:]):
-            f += ["rend-raise:" + r[1] for r in obs[0][1:] if r[0] == "raise"]
-        nd = sum(len(o[0]) - 1 for o in obs[1][1:] if o[0] != "escape")
+        if any(r[0] == "raise" for r in obs[1][1:]):
+            f += ["rend-raise:" + r[1] for r in obs[1][1:] if r[0] == "raise"]
+        nd = sum(len(o[0]) - 1 for o in obs[2][1:] if o[0] != "escape")
         f.append(f"delivered={min(nd, 4)}")
         return f
 
     def shrink(self, case):
+        code, curt, size, authic, ki, memos, sched, hist = unpack(case)
+        case = ("e2e", code, curt, size, authic, ki, memos, sched)
+        for c in self._shrink8(case):
+            yield c + (hist,)
+        for i in range(len(hist)):
+            yield case + (hist[:i] + hist[i + 1:],)
+
+    def _shrink8(self, case):
         _, code, curt, size, authic, ki, memos, sched = case
         for i in range(len(sched)):
             if len(sched) > 1:
@@ -372,14 +451,16 @@ class C20(core.Check):
 
     def mutate(self, rng, case):
         out = list(self.shrink(case))
-        _, code, curt, size, authic, ki, memos, sched = case
-        out.append(("e2e", code, not curt, size, authic, ki, memos, sched))
+        code, curt, size, authic, ki, memos, sched, hist = unpack(case)
+        out.append(("e2e", code, not curt, size, authic, ki, memos, sched, hist))
         for d in (-1, 1, 8):
-            out.append(("e2e", code, curt, max(0, size + d), authic, ki, memos, sched))
+            out.append(("e2e", code, curt, max(0, size + d), authic, ki, memos, sched, hist))
         rs = [list(b) for b in sched]
         for b in rs:
             b.reverse()
-        out.append(case[:7] + (rs,))
+        out.append(("e2e", code, curt, size, authic, ki, memos, rs, hist))
+        if ki is not None:
+            out.append(("e2e", "bAAA", curt, size, authic, ki, memos, sched, [("size", size), ("code", code)] + list(hist)))
         return out
 
 
